@@ -114,6 +114,8 @@ def accounted : List (C13Gen.Site × Cls) := [
    `IndexedState.Add` holds its lock inside a function literal whose first statements are `s.slock` / `defer s.sunlock`:
    the extractor attributes both to the enclosing method) -/
 def lockTable : List C13Gen.LockUse := [
+  ⟨"core/location.go", "Location.AddFact", "loc.admission.Lock()", true⟩,
+  ⟨"core/location.go", "Location.AddRule", "loc.admission.Lock()", true⟩,
   ⟨"core/location.go", "Location.Control", "loc.Lock()", false⟩,
   ⟨"core/location.go", "Location.Control", "loc.RLock()", false⟩,
   ⟨"core/location.go", "Location.IsReadOnly", "loc.RLock()", false⟩,
